@@ -201,9 +201,11 @@ class PopSubject(Subject):
             :self._k(op), :n_cov]}
 
     def _k(self, op):
-        if '"H"' not in json.dumps(self.recipe['pop']):
-            # without a heterogeneous part the number of individuals the
-            # model was told is documented to be ignored: any number goes
+        if self.recipe['pop']['cls'] in ('G', 'LN', 'TG'):
+            # a bare Gaussian-type model: the number of individuals it was
+            # told is documented to be ignored, any number goes (a composite
+            # sizes its buffers by it and must be told, as chi's own
+            # consumers do)
             return max(1, min(int(op.get('k', len(op['eta']))),
                               len(op['eta'])))
         return min(getattr(self, 'cur_k', None) or len(op['eta']),
@@ -961,6 +963,11 @@ def generate(rng, index, tier):
                 else:
                     shadow_fixed.add(i)
             want_sens = rng.random() < 0.5
+            if rng.random() < 0.08:
+                # the boundary value: everything this call fixes is fixed
+                # at zero (a number like any other for fix_parameters)
+                zero = rng.choice([0, 0.0])
+                st = [[i_, v_ if v_ is None else zero] for i_, v_ in st]
             op = {'op': 'fix', 'set': st}
             if rng.random() < 0.1:
                 op['unknown'] = {'no such parameter': 1.0}
